@@ -250,7 +250,14 @@ func runHistory(t *core.Tape, info *core.RunInfo) *core.Violation {
 			extra := 0
 			aliased := t.Bool("hist.alias", 400)
 			var dst []byte
-			if aliased {
+			if aliased && t.Bool("hist.alias2", 300) {
+				// in place in a LARGER buffer: dst = buf, src = buf[:n] (cipher.Stream: "It is acceptable
+				// to pass a dst bigger than src"; the processed part overlaps entirely). Seed C19e: a fast
+				// path recognised only the identical slice as in-place use.
+				extra = 1 + t.Intn("hist.alias2", 5)
+				buf := append(kit.CopyBytes(src), bytes.Repeat([]byte{0xee}, extra)...)
+				src, dst = buf[:n], buf
+			} else if aliased {
 				dst = src
 			} else {
 				if t.Bool("hist.alias", 300) {
@@ -658,6 +665,27 @@ func runRange(t *core.Tape, info *core.RunInfo) *core.Violation {
 		}
 		if len(pre) > 0 {
 			info.Fault("adversarial-prefix")
+		}
+		// "a uniform random BigInt": every stream bit that falls inside the requested bit length
+		// carries entropy - exact costs the top bit only. Two streams that differ in one such bit
+		// must give different values (seed C19f: exact forced all significant bits of the first byte).
+		free := int(bitlen)
+		if exact {
+			free--
+		}
+		if free >= 1 {
+			nb := int(bitlen+7) / 8
+			full := make([]byte, nb) // the first nb stream bytes of this run, then the same with one bit flipped
+			(&advStream{prefix: pre, tail: kit.Ed().XOF(t.Bytes("cfg.seed2", 16))}).XORKeyStream(full, make([]byte, nb))
+			k := t.Intn("oracle.bit", free) // bit k of the value, counted from the least significant
+			alt := kit.CopyBytes(full)
+			alt[nb-1-k/8] ^= 1 << (k % 8)
+			b1 := random.Bits(bitlen, exact, &advStream{prefix: full, tail: kit.Ed().XOF([]byte("t"))})
+			b2 := random.Bits(bitlen, exact, &advStream{prefix: alt, tail: kit.Ed().XOF([]byte("t"))})
+			if bytes.Equal(b1, b2) {
+				return viol("uniform", "bits-ignores-a-stream-bit", "random.Bits(%d, exact=%v): flipping stream bit %d (inside the requested length) does not change the value %x", bitlen, exact, k, b1)
+			}
+			info.Probe("bits-sensitivity-checked")
 		}
 		info.Logf("bits %d exact=%v -> %d-bit value", bitlen, exact, v.BitLen())
 		return nil
